@@ -440,8 +440,10 @@ class NumpyConverter(object):
     @staticmethod
     def write_headers(header_info, out_filehandle):
         for header_array in header_info.headers_dict.values():
+            # Footer arrays are 32-bit little-endian integers, whatever integer dtype we were given
+            header_bytes = np.ascontiguousarray(header_array, dtype='<i4').tobytes()
             # Pad to 512-bytes for page blobs
-            out_filehandle.write(header_array.tobytes() + bytes(-len(header_array.tobytes()) % 512))
+            out_filehandle.write(header_bytes + bytes(-len(header_bytes) % 512))
 
     @staticmethod
     def write_hash(hash, out_filehandle):
